@@ -13,7 +13,7 @@ Nothing is executed: the walk is syntax-directed over the ast.
 import ast
 from .core import AnalysisError
 from .model import ClassInfo, FuncInfo
-from .astutil import src, strip_doc
+from .astutil import src, strip_doc, conjuncts
 
 CATS = ('ATOMS', 'TOPO', 'ORDER', 'IS8', 'CHARGE', 'RADICAL', 'ISOTOPE', 'HCOUNT', 'STEREO', 'XY')
 TRIGGERS = {  # category -> dims that become pending
@@ -77,7 +77,8 @@ class Protocol:
         """{'keep_sssr': (keys...), 'keep_components': (keys...)} from the body of flush_cache/copy"""
         out = {}
         for n in ast.walk(func.node):
-            if isinstance(n, ast.If) and isinstance(n.test, ast.Name) and n.test.id.startswith('keep_'):
+            flags = [c.id for c in conjuncts(n.test) if isinstance(c, ast.Name) and c.id.startswith('keep_')] if isinstance(n, ast.If) else []
+            if len(flags) == 1:  # `if keep_x:` or `if keep_x and 'key' in self.__dict__:`
                 keys = set()
                 for c in ast.walk(n):
                     if isinstance(c, ast.Compare) and len(c.ops) == 1 and isinstance(c.ops[0], ast.In):
@@ -92,7 +93,7 @@ class Protocol:
                     elif isinstance(c, ast.Subscript) and isinstance(c.slice, ast.Constant) and \
                             isinstance(c.slice.value, str) and isinstance(c.ctx, ast.Store):
                         keys.add(c.slice.value)
-                out[n.test.id] = tuple(sorted(keys))
+                out[flags[0]] = tuple(sorted(set(out.get(flags[0], ())) | keys))
         return out
 
     def _kept_keys(self):
